@@ -503,6 +503,15 @@ func (w *world) gc() {
 				w.fail("c11.fault", "gc-write-error-swallowed", "the collector's delete batch failed with an injected I/O error and DeleteNodes reported success")
 				return
 			}
+			if w.step%2 == 1 {
+				// the caller does not try again at once: it carries on, and whichever collector pass the script makes
+				// next is the retry (the failed pass deleted nothing and does not count as a pass)
+				w.stats.Inc("probe.failed-collector-pass-not-repeated-at-once")
+				if w.has("C13") && w.cp != nil && w.afterCP >= 1 {
+					w.gcSinceB--
+				}
+				return
+			}
 		} else {
 			// nothing was due for deletion: the pass has been made (no write happened)
 			w.stats.Inc("probe.gc")
